@@ -115,7 +115,7 @@ def gen_cfg(rng, real_frac=0.06, allow_long=True, engines=None):
         "xyz": rng.choice([0, 1, 1, 2, 3]),
         "h5": h5,
     }
-    cfg["reuse_P"] = True if eng not in ("basic", "langevin", "exc_basic") else rng.random() < 0.65
+    cfg["reuse_P"] = True if eng not in ("basic", "langevin", "exc_basic", "sh") else rng.random() < 0.65
     diatomic = any(len(mdsim.POOL[m][0]) <= 2 or m == "hcn" for m in cfg["batch"])
     u = rng.random()
     if u < 0.6 or eng in ("sh", "sh_model"):
@@ -563,8 +563,14 @@ class C10(core.Check):
                 cfg["steps"] = 5
                 cfg["out"]["ckpt"] = 2
                 cfg["out"]["h5"].update(data=1, coordinates=1, nonadiabatic=1)
+                if i == 3:
+                    cfg["reuse_P"] = False  # amplitudes are not carried by the molecule nor checkpointed: item 44
+                    cfg.pop("nonadiabatic", None)  # defaults: crossing detection on, which needs the previous step's amplitudes
             io_seam = rng.random() >= 0.15
             plan = gen_fault_plan(rng, io_seam)
+            if i == 3:
+                # (the crash lands after the second checkpoint, so that there is something to resume from)
+                plan = [{"kind": "soft@step", "stratum": "uniform", "u": [0.9, 0.0, 0.9, 0.0], "torn": None, "in_init": False}]
             if i == 4:
                 # pinned known finding: production XL-ESMD with transition properties requested, interrupted and resumed
                 cfg = dict(PINNED_XLESMD_TRANSITION_PROPERTIES, seed=cfg["seed"], rotate=rng.randrange(1 << 30))
